@@ -9,7 +9,7 @@ import (
 )
 
 // C04 - sort model: strict priority order, exactly once, documented error policy.
-var c04Methods = []string{"Execute", "ExecuteSelectedRules", "ExecuteSelectedRulesWithControl", "ExecuteRulesWithSpecifiedEM", "ExecuteRulesWithMultiInputWithSpecifiedEM", "ExecuteSelectedWithSpecifiedEM"}
+var c04Methods = []string{"Execute", "ExecuteSelectedRules", "ExecuteSelectedRulesWithControl", "ExecuteWithStopTagDirect", "ExecuteSelectedRulesWithControlAndStopTag", "ExecuteRulesWithSpecifiedEM", "ExecuteRulesWithMultiInputWithSpecifiedEM", "ExecuteSelectedWithSpecifiedEM"}
 
 func init() {
 	register(&Prop{
@@ -22,7 +22,7 @@ func init() {
 			if thorough() {
 				maxN = 16
 			}
-			c.Rules = genRules(t, 1, maxN, 25, 0, 50)
+			c.Rules = genRules(t, 1, maxN, 25, 6, 50)
 			genBuildsReplacing(t, c)
 			c.Pool = rapid.Bool().Draw(t, "pool")
 			var names []string
